@@ -56,8 +56,8 @@ def make_line(I, cfg, tag, spec):
         return bs, (key if klen else None), (len(lead) if isinstance(lead, (bytes, tuple)) else lead)
     # group form: the text before `k=` may contain key letters (the key must be located by the
     # regex match, not by searching for its text)
-    lead_alpha = [120, 32, 97] if cfg.mode == 'group' else [120, 32]
-    trail_alpha = [59, 32] if cfg.mode == 'group' else [120, 32]
+    lead_alpha = [120, 32, 97] if cfg.mode in ('group', 'group-empty') else [120, 32]
+    trail_alpha = [59, 32] if cfg.mode in ('group', 'group-empty') else [120, 32]
     bs = [I.fresh_byte('%s_w%d' % (tag, i), lead_alpha) for i in range(lead)]
     if cfg.mode == 'group-optional':
         # pattern z(?P<value>[ab]+)? : the group takes part only when letters follow the z; otherwise the
@@ -66,10 +66,16 @@ def make_line(I, cfg, tag, spec):
         key = [I.fresh_byte('%s_k%d' % (tag, i), cfg.key_alphabet) for i in range(klen)]
         bs += [122] + key + [I.fresh_byte('%s_t%d' % (tag, i), trail_alpha) for i in range(trail)]
         return tuple(bs), (tuple(key) if klen else (122,)), (off + 1 if klen else off)
+    if cfg.mode == 'group-empty' and klen == 0:
+        # pattern k=(?P<value>[ab]*) : the group takes part and matches nothing - the key is the empty string
+        bs += [107, 61]
+        off = len(bs)
+        bs += [I.fresh_byte('%s_t%d' % (tag, i), trail_alpha) for i in range(trail)]
+        return tuple(bs), (), off
     if klen == 0:
         bs += [I.fresh_byte('%s_t%d' % (tag, i), trail_alpha) for i in range(trail)]
         return tuple(bs), None, 0
-    if cfg.mode == 'group':
+    if cfg.mode in ('group', 'group-empty'):
         bs += [107, 61]
     off = len(bs)
     key = [I.fresh_byte('%s_k%d' % (tag, i), cfg.key_alphabet) for i in range(klen)]
@@ -100,6 +106,7 @@ PATTERNS = {
     'one-ab': (r'^[ab]$', lambda k: z3.BoolVal(False) if len(k) != 1 else z3.Or(k[0] == 97, k[0] == 98)),
     'ends-b': (r'^.*b$', lambda k: k[-1] == 98),
     'empty': (r'^$', lambda k: z3.BoolVal(False)),
+    'maybe-a': (r'^a*', lambda k: z3.BoolVal(True)),        # matches the empty string at the start of every line
     'a-then-b': (r'^a*b+$', lambda k: zor([zand([b == 97 for b in k[:i]] + [b == 98 for b in k[i:]]) for i in range(0, len(k))])),
 }
 
@@ -383,7 +390,7 @@ def gen_tasks(rnd, configs, specs_for, nlines, per_cfg, min_keys=2):
         combos = []
         for n in range(1, nlines + 1):
             for ls in itertools.product(specs, repeat=n):
-                if sum(1 for x in ls if x[1] > 0) < min_keys:
+                if sum(1 for x in ls if x[1] > 0 or cfg.mode == 'group-empty') < min_keys:
                     continue
                 combos.append(ls)
         short = [c for c in combos if len(c) <= 2]
